@@ -1,9 +1,22 @@
-import Pyrtma.Proofs.Manager
+import Pyrtma.Proofs.ManagerSimDrv
 /-!
 # C19 — control frames are acknowledged exactly once, in order, to their sender
 
 `dataSends isAck out` lists `(recipient, frame)` for every ACKNOWLEDGE the manager itself wrote.  (An ACKNOWLEDGE-typed
 frame *published by a client* is a data frame with body `.data k`, never `.ack`.)
+
+Per operation (any state): `ack_exactly_once`, `ack_shape`, `ack_copies_only_to_loggers`, `forward_never_acks`,
+`remove_never_acks`, `never_acked`, `control_frames_acked`.
+
+For every history (the refinement link, `Proofs/ManagerSim*.lean`): `spec_ack_clause_passes_on_model` — run the model on
+any well-formed history and give the history-based Spec (`Spec.runSpec`, the function the driver evaluates on what the
+real `MessageManager` did) the events the model itself wrote, round by round: the Spec's verdict contains **no C19
+entry**.  The proof replays the Spec's abstract table against the model's tables through a simulation relation
+(`Sim`, preserved by every round: `round_ok`) and shows frame by frame that `Spec.checkAcks` — addressed to the sender's
+module id, exactly once to the sender (twice if it is itself a logger), one copy per connected logger whose connection
+works, none to anybody else, none for frames that must not be acknowledged — adds nothing.  So: whenever the
+implementation's events agree with the model's on a history (the CORR tie), the C19 verdict of the Spec on the
+implementation is `ok`, for *all* histories, not only the generated ones.
 -/
 namespace Pyrtma.C19
 open Pyrtma.Mgr
@@ -163,6 +176,28 @@ theorem control_frames_acked (cfg : Cfg) (hd : DistinctIds cfg) (s : State) (u :
   · simp only [f _ _ hd.p1, f _ _ hd.p2, f _ _ hd.p3, f _ _ hd.p4, f _ _ hd.p5, beq_self_eq_true, Bool.or_self,
       Bool.or_true, Bool.false_eq_true, if_false, if_true]
 
+/-! ### The Spec's C19 clauses on every run of the model -/
+
+/-- **The Spec's acknowledgement clauses hold on every run of the model** (and with them the whole of property C19 as
+the Spec decides it, the crash clause being void for a run that does not crash — `model_never_crashes`).  For every
+configuration meeting the side conditions (`CfgOK`: instantiated at the constants of the source tree; automatic fuel;
+CLIENT_CLOSED is not the ALL_MESSAGE_TYPES sentinel;
+`OrdPerm`: a Python `set` is iterated in some order, every element once — the driver uses insertion order and its
+reverse) and every history whose frames are read from connections (never from the manager's own table entry, uid 0 —
+every generated history is such), the verdict `Spec.runSpec` computes from the history and the model's own events has no
+C19 entry. -/
+theorem spec_ack_clause_passes_on_model (cfg : Cfg) (ok : CfgOK cfg) (hfuel : cfg.fuel = 0) (hperm : OrdPerm cfg)
+    (hmt : cfg.mtClosed ≠ cfg.allTypes) (rs : List Round) (hwf : RoundsWF rs) :
+    (Spec.runSpec cfg rs (Pyrtma.Drv.Manager.modelRun cfg rs).1 none).errs.filter (·.1 == "C19") = [] :=
+  spec_passes_on_model ok hfuel hperm hmt rs hwf "C19" (by simp [proven]) (fun h => absurd h (by decide))
+
+/-- …and the abstract table the Spec ends with describes the model's final tables: same live connections, same module
+    ids, flags, names, pids and subscriptions, same failure environment -/
+theorem spec_table_simulates_model (cfg : Cfg) (ok : CfgOK cfg) (hfuel : cfg.fuel = 0) (hperm : OrdPerm cfg)
+    (hmt : cfg.mtClosed ≠ cfg.allTypes) (rs : List Round) (hwf : RoundsWF rs) :
+    Sim cfg ((List.zip rs (modelRounds cfg (init cfg) rs)).foldl (fun a p => Spec.round cfg a p.1 p.2) {}) (run cfg rs) :=
+  (rounds_ok ok hfuel hperm hmt rs {} (init cfg) (init_sim ok hfuel hmt (ordOK_of_perm hperm)) hwf).1.sim
+
 /-! ### Non-vacuity -/
 def exState : State :=
   { mods := [{ uid := 0, connected := true }, { uid := 1, modId := 10, connected := true },
@@ -174,5 +209,33 @@ def exState : State :=
 example : dataSends isAck (processMessage {} exState 1 { mtype := 15 }).out =
     [(1, ackFrame {} 10), (2, ackFrame {} 10)] := by decide
 example : DistinctIds {} := by constructor <;> decide
+
+/-- the side conditions of the refinement theorem hold for the default configuration with either iteration order -/
+example : OrdPerm ({} : Cfg) ∧ OrdPerm ({ order := List.reverse } : Cfg) :=
+  ⟨fun l => List.Perm.refl l, fun l => List.reverse_perm l⟩
+
+/-- two connections, both connect (the second as a logger), the first subscribes: a well-formed history on which the
+    model acknowledges (three ACKNOWLEDGE frames to connection 1 … ) and the Spec has nothing to object to -/
+def exHist : List Round :=
+  [{ accept := true }, { accept := true },
+   { reads := [{ uid := 2, h := { k := 1, mtype := 4, nbytes := 44 }, avail := 44,
+                 pay := [1, 0, 0, 0, 0, 0, 11, 0, 7, 0, 0, 0] }], writable := [1, 2] },
+   { reads := [{ uid := 1, h := { k := 2, mtype := 13, src := 10 } }], writable := [1, 2] },
+   { reads := [{ uid := 1, h := { k := 3, mtype := 15, nbytes := 4 }, avail := 4, pay := [136, 19, 0, 0] }],
+     writable := [1, 2] }]
+
+example : RoundsWF exHist := by
+  intro r hr rd hrd
+  simp only [exHist, List.mem_cons, List.mem_singleton, List.not_mem_nil, or_false] at hr
+  rcases hr with rfl | rfl | rfl | rfl | rfl <;> simp at hrd <;> subst hrd <;> decide
+
+/-- (connection, module id addressed) of the ACKNOWLEDGE frames of that run: connection 2 is a logger, and so is
+    connection 1 — its version-1 CONNECT has no payload, the logger flag is read from the bytes the previous frame left in
+    the receive buffer -/
+example : (Spec.ackSends (modelObs {} exHist).flatten).map (fun p => (p.1, p.2.2.dest)) =
+    [(2, 11), (2, 11), (1, 10), (2, 10), (1, 10), (1, 10), (2, 10), (1, 10)] := by decide +kernel
+
+example : (Spec.runSpec {} exHist (Pyrtma.Drv.Manager.modelRun {} exHist).1 none).errs = [] := by decide +kernel
+
 
 end Pyrtma.C19
